@@ -26,9 +26,22 @@ func replayC04(i int, raw json.RawMessage, seed int64) hx.Result {
 	if r.Fam == "probe" {
 		return replayProbe(&r)
 	}
+	if r.Fam == "dup" {
+		return replayDup(i, &r, seed)
+	}
 	nt := fmt.Sprintf("tamper|fmt%d|algo%d|%s|%s|%s|red=%v|id=%v|sig=%d", r.IDFmt, algoOf(r.Ver), r.Proto.Type,
 		strings.Join(sorted(r.T), ","), r.HM, r.Red, r.IDSame, len(r.Valid)) + fmt.Sprintf("|pre=%s|noop=%v", r.Pre, r.Noop)
+	if speltOtherwise(&r) {
+		nt += "|name-spelling=" + r.Sp
+	}
 	if res := runC04(&r, i, seed); res != nil {
+		if speltOtherwise(&r) {
+			// the tampering in the spelling it needs: the names of the keys stripped on receipt written with a \u escape
+			// (the same names) or in other letter case (other names)
+			res.Key += "/name-spelling=" + r.Sp
+			res.What += fmt.Sprintf(" [the names of the added keys %v are written %s on the wire]", speltNames(&r),
+				map[string]string{"esc": "with a \\uXXXX escape for one character, which denotes the same name", "case": "in other letter case, which makes them other names (unknown top-level keys)"}[r.Sp])
+		}
 		res.NT = nt
 		return *res
 	}
@@ -46,6 +59,23 @@ func strippedOnReceipt(ver string) []string {
 		return []string{"outlier", "destinations", "age_ts", "unsigned"}
 	}
 	return []string{"outlier", "destinations", "age_ts", "unsigned", "event_id"}
+}
+
+// speltOtherwise: the record writes the names of the keys stripped on receipt in another spelling than the plain one.
+func speltOtherwise(r *rec) bool { return r.Sp == "esc" || r.Sp == "case" }
+
+// speltNames lists the keys stripped on receipt that the tampering adds (the ones the spelling applies to).
+func speltNames(r *rec) []string {
+	var out []string
+	stripped := setOf(strippedOnReceipt(r.Ver))
+	for _, x := range sorted(r.T) {
+		for _, k := range map[string][]string{"unsigned": {"unsigned"}, "age_ts": {"age_ts"}, "outdest": {"outlier", "destinations"}, "event_id": {"event_id"}}[x] {
+			if stripped[k] {
+				out = append(out, k)
+			}
+		}
+	}
+	return out
 }
 
 // tamperClass names the tampering in canonical keys: the elements and the hash mode.
@@ -71,6 +101,21 @@ func tamper(r *rec, orig []byte, idx int, seed int64) []byte {
 		panic(err)
 	}
 	has := setOf(r.T)
+	// NameOnWire of EventIdentity.tla: a key that is stripped on receipt is added under its name (plain; "esc": the
+	// name written with an escape, see the writer below) or under the name in other letter case
+	esc := map[string]bool{}
+	name := func(k string) string {
+		if !setOf(strippedOnReceipt(r.Ver))[k] {
+			return k
+		}
+		switch r.Sp {
+		case "case":
+			return otherCase[k]
+		case "esc":
+			esc[k] = true
+		}
+		return k
+	}
 	if has["con_out_chg"] {
 		if _, ok := con[r.KOut]; !ok {
 			panic("harness: content key to change is absent: " + r.KOut)
@@ -105,20 +150,20 @@ func tamper(r *rec, orig []byte, idx int, seed int64) []byte {
 		ev["depth"] = json.RawMessage(`3`)
 	}
 	if has["unsigned"] {
-		ev["unsigned"] = json.RawMessage(`{"age":1,"redacted_because":{"type":"m.room.redaction"}}`)
+		ev[name("unsigned")] = json.RawMessage(`{"age":1,"redacted_because":{"type":"m.room.redaction"}}`)
 	}
 	if has["age_ts"] {
-		ev["age_ts"] = json.RawMessage(`1700000000999`)
+		ev[name("age_ts")] = json.RawMessage(`1700000000999`)
 	}
 	if has["outdest"] {
-		ev["outlier"] = json.RawMessage(`true`)
-		ev["destinations"] = json.RawMessage(`["evil.example.org"]`)
+		ev[name("outlier")] = json.RawMessage(`true`)
+		ev[name("destinations")] = json.RawMessage(`["evil.example.org"]`)
 	}
 	if has["event_id"] {
 		if isFormatV1(r.Ver) {
 			ev["event_id"] = q("$forged:evil.example.org")
 		} else {
-			ev["event_id"] = q(idOf("forged", r.Ver))
+			ev[name("event_id")] = q(idOf("forged", r.Ver))
 		}
 	}
 	switch r.HM {
@@ -150,6 +195,9 @@ func tamper(r *rec, orig []byte, idx int, seed int64) []byte {
 		ev["hashes"] = contentHash(recv)
 	default:
 		panic("harness: unknown hash mode " + r.HM)
+	}
+	if len(esc) > 0 {
+		return writeObj(membersOf(ev, esc, idx%2 == 1, idx/2), idx%2 == 1)
 	}
 	if idx%2 == 1 {
 		return respell(ev)
@@ -194,7 +242,7 @@ func runC04(r *rec, idx int, seed int64) *hx.Result {
 		return fail("C04/build/error", "EventBuilder.Build raises no error for a "+r.Proto.Lim+" field", nil, nil)
 	}
 	if r.Pre != "none" {
-		if p, err = applyOp(r.Ver, impl, p, r.Pre); err != nil {
+		if p, err = applyOp(r.Ver, impl, p, r.Pre, b.sp); err != nil {
 			return fail("C04/build/error", opName(r.Pre)+" fails: "+err.Error(), nil, err.Error())
 		}
 	}
@@ -210,7 +258,7 @@ func runC04(r *rec, idx int, seed int64) *hx.Result {
 	}
 	var signers []signer
 	for _, tok := range r.Signers {
-		signers = append(signers, signerByToken(r.Ver, tok))
+		signers = append(signers, signerByToken(r.Ver, tok, b.sp))
 	}
 	verifier := scriptedVerifier{signers}
 	var origVerdict error
@@ -417,6 +465,17 @@ func accessorsAgree(r *rec, b *built, f *fields, p gmsl.PDU, got map[string]inte
 		return fail("C04/accessor/"+name, fmt.Sprintf("%s() disagrees with JSON() of the parsed event (room version %s)", name, r.Ver), want, have)
 	}
 	str := func(k string) string { s, _ := got[k].(string); return s }
+	// the event ID is what JSON() says it is: the event_id key (room versions 1-2), the hash of the redacted event
+	// (room versions 3+; the harness's own computation) - no other key of the wire event has a say
+	if isFormatV1(r.Ver) {
+		if f.ID != str("event_id") {
+			return bad("EventID", str("event_id"), f.ID)
+		}
+	} else if impl, err := gmsl.GetRoomVersion(gmsl.RoomVersion(r.Ver)); err == nil {
+		if want, err := referenceID(impl, r.Ver, p.JSON()); err == nil && f.ID != want {
+			return bad("EventID", want, f.ID)
+		}
+	}
 	if f.Type != str("type") {
 		return bad("Type", str("type"), f.Type)
 	}
